@@ -43,6 +43,7 @@ type decFacts struct {
 	initResolve          string // the switch of (*reader).initialize that resolves / clamps the offset
 	initSeeksResolved    bool   // … followed by conn.Seek(<that offset>, SeekAbsolute)
 	runResetsAttempt     bool   // (*reader).run: `attempt = 0` and `offset = start` after a successful initialize
+	controlBatchMask     int64  // message_reader.go readHeader: the attributes bit whose test makes a v2 batch a control batch (`count = 0`)
 	runConnDirect        string // (*reader).run: the Conn methods called directly on the connection (not through r.read / r.readOffsets, which arm a deadline first)
 	runErrcountInc       bool   // … `errcount++` is the last statement of readLoop's body
 	loopBranches         string // per error class of readLoop's switch: what the clause does (canonical words)
@@ -239,6 +240,87 @@ func decInspect(n ast.Node, f func(ast.Node)) {
 }
 
 // decIntLit evaluates an integer literal.
+// decControlMask: in readHeader, the `if <…>.attributes & M != 0 { … <…>.count = 0 … }` that passes over a control
+// batch: the value of M (a literal, or a constant of the file).  decNotShaped when there is no such test.
+func decControlMask(f *ast.File, readHeader *ast.FuncDecl) int64 {
+	consts := map[string]int64{}
+	for _, decl := range f.Decls {
+		gd, ok := decl.(*ast.GenDecl)
+		if !ok || gd.Tok != token.CONST {
+			continue
+		}
+		for _, sp := range gd.Specs {
+			if vs, ok := sp.(*ast.ValueSpec); ok {
+				for i, n := range vs.Names {
+					if i < len(vs.Values) {
+						if k, ok := decIntLit(vs.Values[i]); ok {
+							consts[n.Name] = k
+						}
+					}
+				}
+			}
+		}
+	}
+	val := func(e ast.Expr) (int64, bool) {
+		if k, ok := decIntLit(e); ok {
+			return k, true
+		}
+		if id, ok := e.(*ast.Ident); ok {
+			k, ok := consts[id.Name]
+			return k, ok
+		}
+		return 0, false
+	}
+	mentionsAttributes := func(e ast.Expr) bool {
+		found := false
+		ast.Inspect(e, func(n ast.Node) bool {
+			if sel, ok := n.(*ast.SelectorExpr); ok && sel.Sel.Name == "attributes" {
+				found = true
+			}
+			return true
+		})
+		return found
+	}
+	mask := int64(decNotShaped)
+	ast.Inspect(readHeader.Body, func(n ast.Node) bool {
+		is, ok := n.(*ast.IfStmt)
+		if !ok {
+			return true
+		}
+		zeroesCount := false
+		for _, st := range is.Body.List {
+			if as, ok := st.(*ast.AssignStmt); ok && len(as.Lhs) == 1 && len(as.Rhs) == 1 {
+				if sel, ok := as.Lhs[0].(*ast.SelectorExpr); ok && sel.Sel.Name == "count" {
+					if k, ok := decIntLit(as.Rhs[0]); ok && k == 0 {
+						zeroesCount = true
+					}
+				}
+			}
+		}
+		if !zeroesCount {
+			return true
+		}
+		ast.Inspect(is.Cond, func(m ast.Node) bool {
+			be, ok := m.(*ast.BinaryExpr)
+			if !ok || be.Op != token.AND {
+				return true
+			}
+			if mentionsAttributes(be.X) {
+				if k, ok := val(be.Y); ok {
+					mask = k
+				}
+			} else if mentionsAttributes(be.Y) {
+				if k, ok := val(be.X); ok {
+					mask = k
+				}
+			}
+			return true
+		})
+		return true
+	})
+	return mask
+}
+
 func decIntLit(e ast.Expr) (int64, bool) {
 	for {
 		p, ok := e.(*ast.ParenExpr)
@@ -419,6 +501,7 @@ func extractDecoder(repo, root string) error {
 	if err != nil {
 		return err
 	}
+	facts.controlBatchMask = decControlMask(mf, readHeader)
 	msrReadMessage, err := need(mf, "message_reader.go", "messageSetReader", "readMessage")
 	if err != nil {
 		return err
@@ -1393,7 +1476,7 @@ func (f *decFacts) lean() string {
 		"jumpGuard : String", "skipBelow : String", "nextOffsetPlus : Int", "readerNextOffsetPlus : Int",
 		"emptyWhenHwmEqOffset : Bool", "closeStoresOffset : Bool", "oorSeeksConn : Bool",
 		"firstOffsetConst : Int", "lastOffsetConst : Int", "initResolve : String", "initSeeksResolved : Bool",
-		"runResetsAttempt : Bool", "runConnDirect : String", "runErrcountInc : Bool", "loopBranches : String", "decoderText : String",
+		"runResetsAttempt : Bool", "controlBatchMask : Int", "runConnDirect : String", "runErrcountInc : Bool", "loopBranches : String", "decoderText : String",
 	} {
 		b.WriteString("  " + fld + "\n")
 	}
@@ -1422,6 +1505,7 @@ func (f *decFacts) lean() string {
 		"initResolve := " + decLeanString(f.initResolve),
 		"initSeeksResolved := " + strconv.FormatBool(f.initSeeksResolved),
 		"runResetsAttempt := " + strconv.FormatBool(f.runResetsAttempt),
+		"controlBatchMask := " + decLeanInt(f.controlBatchMask),
 		"runConnDirect := " + decLeanString(f.runConnDirect),
 		"runErrcountInc := " + strconv.FormatBool(f.runErrcountInc),
 		"loopBranches := " + decLeanString(f.loopBranches),
